@@ -117,9 +117,27 @@ def to_msg_worker(analysis: Analysis, spec) -> dict:
 
         prefix_pos = any(e.recv is not None and isinstance(e.recv, Const) and e.recv.value == "/" and e.args and bounds_of(e.args[0]) == {"upper": -5} for e in joins)
         last5 = joined is not None and bounds_of(joined) == {"lower": -5}
-        # the other shape: the joined value is an explicit six-element list [n, c, t, ack, s, str(payload)]
+        # other shapes: the result is an explicit six-element list joined with ';', or an f-string of six values
         last5_by_items = None
         jitems = getattr(joined, "items", None) if joined is not None else None
+        vparts = getattr(v, "parts", None) if isinstance(v, V) else None
+        if vparts and not none:
+            vals_ = [p for p in vparts if not isinstance(p, str)]
+            seps_ = [p for p in vparts if isinstance(p, str)]
+            if len(vals_) == 6 and len(seps_) == 5 and len(set(seps_)) == 1 and not isinstance(vparts[0], str) and not isinstance(vparts[-1], str):
+                jitems = vals_
+                join_sep = seps_[0]
+
+        def right_split_pos(val):
+            """Index (from the left, 0 = prefix) of `val` in `topic.rsplit('/', 5)` when it was unpacked from it."""
+            src = getattr(val, "src_list", None)
+            lab = repr(val.key())
+            if src is not None and getattr(src, "maxlen", None) == 6 and getattr(src, "split_from", None) == "right" and getattr(src, "split_sep", None) == "/" and getattr(getattr(src, "split_of", None), "key", lambda: None)() == topic.key():
+                for i in range(6):
+                    if f"unpack{i}:" in lab:
+                        return i
+            return None
+
         if jitems is not None and len(jitems) == 6:
             if isinstance(jitems[3], Const):
                 ack = jitems[3].value
@@ -129,8 +147,14 @@ def to_msg_worker(analysis: Analysis, spec) -> dict:
                 src = getattr(jitems[i], "src_list", None)
                 b = getattr(src, "slice_bounds", None) or {}
                 lo = b.get("lower")
-                pos.append(repr(jitems[i].key()).find(f"unpack{i}:") >= 0 and isinstance(lo, Const) and lo.value == -5 and "upper" not in b)
+                from_slice = repr(jitems[i].key()).find(f"unpack{i}:") >= 0 and isinstance(lo, Const) and lo.value == -5 and "upper" not in b
+                from_rsplit = right_split_pos(jitems[i]) == i + 1
+                pos.append(from_slice or from_rsplit)
             last5_by_items = all(pos)
+            if any(right_split_pos(x) is not None for x in jitems):
+                # rsplit('/', 5): field 0 is everything before the last five levels
+                eq_keys = [repr(f[1]) for f in s.facts if f[0] == "atom" and f[1][0] == "eq" and "in_prefix" in repr(f[1])]
+                prefix_pos = prefix_pos or any("unpack0:" in k and "split:" in k for k in eq_keys)
         last5 = bool(last5 or last5_by_items)
         rows.append({"kind": kind, "none": none, "ack": ack, "qos_pos": qos_pos, "qos_nonpos": qos_known_nonpos, "join_sep": join_sep, "levels_src": repr(joined.key())[:200] if isinstance(joined, V) else None, "guard": guard5, "prefix_cmp": eq_prefix, "prefix_equal": (True in eq_truth), "prefix_neq": (False in eq_truth), "append_payload": appended_payload, "last5": last5, "prefix_pos": prefix_pos, "nsplit": len(splits), "finds": len(finds), "witness": describe_path(out, 18)})
     return {"rows": rows}
@@ -144,7 +168,9 @@ def to_msg_ast(analysis: Analysis, res: RuleResult) -> None:
         if isinstance(c.func, ast.Attribute) and c.func.attr in ("find", "index", "rfind", "rindex", "partition", "rpartition", "replace", "lstrip", "removeprefix"):
             bad.append(unparse(c)[:60])
         if isinstance(c.func, ast.Attribute) and c.func.attr in ("split", "rsplit") and (len(c.args) > 1 or c.keywords):
-            bad.append(unparse(c)[:60])
+            five_from_right = c.func.attr == "rsplit" and len(c.args) == 2 and not c.keywords and isinstance(c.args[1], ast.Constant) and c.args[1].value == 5
+            if not five_from_right:  # rsplit(sep, 5) cuts the last five levels off positionally
+                bad.append(unparse(c)[:60])
     res.add("C17-R2", f"{TO_MSG} / no first-occurrence search on the topic (prefix may look like message levels)", not bad, w, "prefix recovered positionally" if not bad else f"search-based prefix recovery: {bad}")
 
 
@@ -334,7 +360,9 @@ def run(analysis: Analysis, tier: str) -> RuleResult:
             res.add("C17-R2", f"{TO_MSG} / prefix is everything before the last five levels", r["prefix_pos"], "mysensors/gateway_mqtt.py", "\"/\".join(levels[:-5])", r["witness"] if not r["prefix_pos"] else None)
             res.add("C17-R1", f"{TO_MSG} / the command is built from exactly the last five levels", r["last5"], "mysensors/gateway_mqtt.py", "levels[-5:]", r["witness"] if not r["last5"] else None)
             res.add("C17-R2", f"{TO_MSG} / a length guard dominates the level accesses", r["guard"], "mysensors/gateway_mqtt.py", "len(topic_levels) compared before slicing", r["witness"] if not r["guard"] else None)
-        res.add("C17-R2", f"{TO_MSG} / a wrong prefix is rejected", any(r["prefix_neq"] for r in rejected), "mysensors/gateway_mqtt.py", "a rejecting path on prefix mismatch exists")
+        # (rejecting paths may have been joined; that a mismatching prefix cannot be accepted follows from every
+        # accepting path carrying the equality)
+        res.add("C17-R2", f"{TO_MSG} / a wrong prefix is rejected", bool(accepted) and all(r["prefix_equal"] for r in accepted) and bool(rejected), "mysensors/gateway_mqtt.py", "every accepting path is taken under prefix == in_prefix and a rejecting path exists")
     subscriptions(analysis, res)
     for summ in common.pmap(analysis, isolation_worker, ["sync", "async"]):
         res.add("C17-R4", "gateway_mqtt:MQTTTransport.handle_subscription / a raising subscribe callback never escapes", not summ["escapes"], "mysensors/gateway_mqtt.py", "; ".join(summ["escapes"][:2]) or "caught and logged", context=summ["flavour"])
